@@ -74,6 +74,20 @@ def sections(ctx, out):
     for _ in range(ctx.n(150, 15_000)):
         src = gen.rand_src(rng, prof)
         cases.append((src, gen.render(src, rng, prof)))
+    # long sections (loop-length-dependent behaviour): several hundred lines, text events in the majority
+    for _ in range(ctx.n(4, 80)):
+        src = gen.rand_src(rng, prof)
+        t = 0
+        src.gevents = []
+        for _ in range(rng.randint(300, 900)):
+            t += rng.randint(0, 50)
+            kind, val = gen.rand_text(rng, prof)
+            if rng.random() < 0.6:
+                kind, val = "text", val.replace('"', "")
+                if val.startswith(("lyric ", "section ")):
+                    val = "_" + val
+            src.gevents.append((t, kind, val))
+        cases.append((src, gen.render(src, rng, prof)))
     a, b = common.run_charts([(R.text, None) for _, R in cases])
     for (src, R), x, y in zip(cases, a, b):
         dx, dy = gen.parse_dump(x), gen.parse_dump(y)
